@@ -304,6 +304,28 @@ def make_faults():
         return ("%s::%s" % (it["name"], m["name"]), 2 if where in ("optparam", "okreturn", "errreturn") else 1), where
     F.append(("missing-def-site-bound", "lifetime", missing_bound))
 
+    def self_ref_missing_bound(prog, draw):
+        """`&'a Self` inside `impl<'b> Foo<'b>` is `&'a Foo<'b>` and implies 'b: 'a; with no `&'a self` receiver and no declared bound
+        nothing spells it out on the method"""
+        ms = [x for x in methods_of(prog) if x[1]["kind"] == "opaque" and x[1].get("lifetimes")
+              and not (x[3]["self"] and x[3]["self"][0] == "ref" and x[3]["self"][1])]
+        if not ms:
+            # no lifetime-generic opaque with a suitable method: plant one
+            mod = prog["modules"][0]
+            it = {"kind": "opaque", "name": "DvSelfRef", "attrs": [], "lifetimes": [["x", []]],
+                  "impls": [{"attrs": [], "methods": [{"name": "dv_m", "attrs": [], "lifetimes": [], "self": None, "params": [], "ret": ["prim", "bool"], "body": None}]}]}
+            mod["items"].append(it)
+            ir.default_order(mod)
+            ms = [(mod, it, it["impls"][0], it["impls"][0]["methods"][0])]
+        mod, it, impl, m = draw(st.sampled_from(ms))
+        tl = [l[0] for l in it["lifetimes"]]
+        t = ["ref", "dva", False, it["name"], list(tl), "Self"]
+        where = draw(st.sampled_from(["param", "optparam"]))
+        m["params"].insert(0, ["dv_fault", t if where == "param" else ["opt", t, "std"], []])
+        red._fix_method_lifetimes(it, m)
+        return ("%s::%s" % (it["name"], m["name"]), 2 if where == "optparam" else 1), where
+    F.append(("missing-ref-implied-bound-on-Self", "lifetime", self_ref_missing_bound))
+
     # struct fields
     def field_fault(rule, build_ty, out=False):
         def f(prog, draw):
